@@ -146,12 +146,61 @@ def check(ctx, case):
             nodes = {pid.node_ind for pid in assign}
             if len(inst) != 1 or nodes != set(range(n)):
                 ctx.violation("assembly-split", f"perfect matches assembled in order {order} give {len(inst)} instances covering nodes {sorted(nodes)}", small)
+            # the order that actually *reaches* the assembly step when two fully detected animals are grouped through the real
+            # group_instances_sample (observed by a pass-through recorder on assign_connections_to_instances), and its consequence
+            check_grouping(ctx, pg, scorer, n, edges, small)
     if tuple(pg.toposort_edges(scorer.edge_types)) != order:
         ctx.violation("toposort-mismatch", "PAFScorer.sorted_edge_inds differs from toposort_edges(edge_types)", small)
     # non-trivial: some child edge is *listed* before its parent edge
     pos_in = {e[1]: i for i, e in enumerate(edges)}
     child_first = n >= 3 and any(e[0] in pos_in and pos_in[e[0]] > i for i, e in enumerate(edges))
     ctx.tick((tuple(edges), tuple(names)) if child_first else None, sample=small if ctx.evaluations < 3 else None)
+
+
+_REC = {}
+
+
+def check_grouping(ctx, pg, scorer, n, edges, small):
+    import torch
+
+    if "wrapped" not in _REC:
+        orig = pg.assign_connections_to_instances
+
+        def recorder(connections, *a, **k):
+            _REC["last_keys"] = [(et.src_node_ind, et.dst_node_ind) for et in connections]
+            return orig(connections, *a, **k)
+
+        pg.assign_connections_to_instances = recorder
+        _REC["wrapped"] = True
+    A = 2  # animals; peaks listed channel-major, so the index of animal a among the peaks of a channel is a
+    peaks = torch.tensor([[10.0 * k + 3.0, 50.0 * a + 7.0] for k in range(n) for a in range(A)], dtype=torch.float32)
+    chan = torch.tensor([k for k in range(n) for a in range(A)], dtype=torch.int32)
+    E = len(edges)
+    m_edge = torch.tensor([k for k in range(E) for a in range(A)], dtype=torch.int32)
+    m_src = torch.tensor([a for k in range(E) for a in range(A)], dtype=torch.int32)
+    m_dst = m_src.clone()
+    m_score = torch.ones(E * A, dtype=torch.float32)
+    _REC.pop("last_keys", None)
+    out = pg.group_instances_sample(peaks, torch.ones(n * A), chan, m_edge, m_src, m_dst, m_score, n, scorer.sorted_edge_inds, scorer.edge_types, min_instance_peaks=0)
+    ctx.count("grouping_runs")
+    keys = _REC.get("last_keys")
+    if keys is None:
+        ctx.count("grouping_order_unobserved")
+    else:
+        ctx.count("grouping_orders_observed")
+        if sorted(keys) != sorted(edges):
+            ctx.violation("grouping-order-incomplete", f"the connections handed to the assembly step cover edges {keys}, listing {edges}", small)
+        else:
+            entered = {}
+            for pos, e in enumerate(keys):
+                entered[e[1]] = pos
+            bad = [e for pos, e in enumerate(keys) if e[0] in entered and entered[e[0]] > pos]
+            if bad:
+                ctx.violation("grouping-order-child-before-parent", f"assembly visits edge {bad[0]} before the edge entering its source node: visiting order {keys}, listing {edges}", small)
+    inst = np.asarray(out[0], float)
+    if inst.shape[0] != A or np.isnan(inst).any():
+        missing = [np.where(np.isnan(q).any(-1))[0].tolist() for q in inst]
+        ctx.violation("body-part-left-ungrouped", f"two fully detected animals grouped into {inst.shape[0]} instances with missing parts {missing}; listing {edges}", small)
 
 
 def finalize(ctx):
@@ -161,6 +210,7 @@ def finalize(ctx):
         ambient.run_tests(ctx, "C17", ["tests/inference/test_paf_grouping.py"], ["toposort_edges"])
     ctx.require("scorers_built", 100)
     ctx.require("assembly_checks", 100)
+    ctx.require("grouping_orders_observed", 100)
     ctx.extra["enumerated_up_to_nodes"] = 5 if ctx.tier == "quick" else 6
 
 
